@@ -1,9 +1,73 @@
 import TaurexModel.Proto
+import TaurexModel.Variance
 
 namespace Taurex.Ops.C18
-open Taurex.Proto
+open Taurex Taurex.Proto Taurex.Variance
 
-/-- operations of the C18 model served by `driver_c18` (filled in by the C18 check) -/
-def ops : List Op := []
+/-- `0` raises, `1` NaN, `2 x` number, `3` +inf -/
+def fRes (r : Option (Val Float)) : String :=
+  match r with
+  | none => "0"
+  | some Val.nan => "1"
+  | some (Val.fin x) => "2 " ++ fF x
+  | some Val.posInf => "3"
+
+def samplesP : P (List (Float × Float)) := do
+  let xs ← listOf flt
+  let ws ← listOf flt
+  pure (xs.zip ws)
+
+/-- `c18.acc xs ws` → `count wcount mean m2 varTag [var]` of one rank after `update` on every sample -/
+def accOp (args : List String) : Option String :=
+  run (do
+    let l ← samplesP
+    let a := accOf l
+    let v := variance a
+    pure s!"{a.count} {fF a.wcount} {fF a.mean} {fF a.m2} {fRes (some v.val)} {fB v.isNpNan}") args
+
+/-- `c18.pool test exch blocks` → pooled variance and pooled mean;
+    `test` 0 = NaN by value (current code), 1 = by identity; `exch` 0 = `id` (no mpi4py), 1 = `ser` -/
+def poolOp (args : List String) : Option String :=
+  run (do
+    let test ← nat
+    let ex ← nat
+    let blocks ← listOf samplesP
+    let isNan : Obj Float → Bool := if test == 0 then nanByValue else nanByIdentity
+    let exch : Obj Float → Obj Float := if ex == 0 then id else ser
+    let ranks := blocks.map accOf
+    pure (fRes (parallelVariance isNan exch ranks) ++ " " ++ fRes (parallelMean isNan exch ranks))) args
+
+/-- `c18.split size xs ws` → `splitVariance size samples` -/
+def splitOp (args : List String) : Option String :=
+  run (do
+    let size ← nat
+    let l ← samplesP
+    pure (fRes (splitVariance size l))) args
+
+/-- `c18.strided r size n` → the indices rank `r` of `size` processes out of `n` samples -/
+def stridedOp (args : List String) : Option String :=
+  run (do
+    let r ← nat
+    let size ← nat
+    let n ← nat
+    pure (fList fN (strided r size (List.range n)))) args
+
+/-- `c18.twopass xs ws` → weighted mean and two-pass weighted variance -/
+def twoPassOp (args : List String) : Option String :=
+  run (do
+    let l ← samplesP
+    pure (fF (wmean l) ++ " " ++ fF (twoPassVar l))) args
+
+/-- `c18.derived size weights trace` → gathered-and-reordered trace (as sample indices travel as floats) -/
+def derivedOp (args : List String) : Option String :=
+  run (do
+    let size ← nat
+    let w ← listOf flt
+    let t ← listOf flt
+    pure (fList fF (derivedTraceGather size w t) ++ " " ++ fList fF (gatherLists (partition size t)))) args
+
+def ops : List Op :=
+  [("c18.acc", accOp), ("c18.pool", poolOp), ("c18.split", splitOp), ("c18.strided", stridedOp),
+   ("c18.twopass", twoPassOp), ("c18.derived", derivedOp)]
 
 end Taurex.Ops.C18
